@@ -496,6 +496,7 @@ LEAVES = [
      test(MAXW, "primal_dual_branch_impl", "profit_sum + upper_bound", {"profit_sum": "profitSum", "upper_bound": "upper", "lower_bound[0]": "lower"}, k=1)),
     ("C04", "zeroCost", "(cost : Rat)", "Bool", test(MAXW, "max_additive_utilitarian_welfare_primal_dual_scheme", "p.cost == 0", {"p.cost": "cost"})),
     ("C04", "zeroCostTaken", "(profit : Rat)", "Bool", test(MAXW, "max_additive_utilitarian_welfare_primal_dual_scheme", "profit > 0", {"profit": "profit"})),
+    ("C04", "knapsackItem", "(profit : Rat)", "Bool", test(MAXW, "max_additive_utilitarian_welfare_primal_dual_scheme", "profit >= 0", {"profit": "profit"})),
     # ---- C09: exhaustion wrappers
     ("C09", "defaultStep", "(budget : Rat)", "Rat", assign(EXH, "exhaustion_by_budget_increase", "budget_step", {"instance.budget_limit": "budget"})),
     ("C09", "defaultBound", "(budget n : Rat)", "Rat", assign(EXH, "exhaustion_by_budget_increase", "budget_bound", {"instance.budget_limit": "budget", "profile.num_ballots()": "n"})),
